@@ -53,7 +53,15 @@ def oracle_c04(hr: dsgen.HistoryRunner, stats) -> None:
                             f"{sh['path']} listed by {sh['list']}")
         if not os.path.isfile(full):
             raise Violation("C04", "listed_file_missing", sh["path"])
-        n = len(dsgen.decode_shard(root, sh["path"], st))
+        try:
+            n = len(dsgen.decode_shard(root, sh["path"], st))
+        except Exception as e:  # pylint: disable=broad-except
+            raise Violation(
+                "C04", "shard_count_wrong",
+                f"{sh['path']}: recorded {sh['count']}, the file does not "
+                f"decode ({type(e).__name__}: {str(e)[:120]}); columns hold up "
+                f"to {dsgen.stored_rows(root, sh['path'], st, 0)} rows") from e
+        n = dsgen.stored_rows(root, sh["path"], st, n)
         stats["shards_decoded"] += 1
         if n != sh["count"]:
             raise Violation("C04", "shard_count_wrong",
@@ -214,8 +222,13 @@ def oracle_c08_create(hr: dsgen.HistoryRunner, stats) -> None:
 def shards_with_ids(hr: dsgen.HistoryRunner):
     _, _, shards = dsgen.walk_tree(hr.root)
     for sh in shards:
-        sh["ids"] = [i for i, _ in dsgen.decode_shard(hr.root, sh["path"],
-                                                      hr.st)]
+        try:
+            sh["ids"] = [i for i, _ in dsgen.decode_shard(hr.root, sh["path"],
+                                                          hr.st)]
+        except Exception as e:  # pylint: disable=broad-except
+            # ragged columns and the like: the oracles judge the stored rows
+            sh["ids"] = []
+            sh["decode_error"] = f"{type(e).__name__}: {str(e)[:120]}"
     return shards
 
 
@@ -228,11 +241,12 @@ def oracle_c10(hr: dsgen.HistoryRunner, stats) -> None:
             rec_by_id[r.id] = (split, r)
     groups = collections.defaultdict(list)
     for sh in shards:
-        n = len(sh["ids"])
-        if not 1 <= n <= eps or n != sh["count"]:
+        n = dsgen.stored_rows(hr.root, sh["path"], hr.st, len(sh["ids"]))
+        if not 1 <= n <= eps or n != sh["count"] or sh.get("decode_error"):
             raise Violation(
                 "C10", "shard_size_out_of_range",
-                f"{sh['path']}: recorded {sh['count']} decoded {n} eps {eps}")
+                f"{sh['path']}: recorded {sh['count']} stored {n} eps {eps} "
+                f"{sh.get('decode_error', '')}")
         owners = {(rec_by_id[i][1].session, rec_by_id[i][1].writer)
                   for i in sh["ids"] if i in rec_by_id}
         if len(owners) == 1:
